@@ -95,6 +95,9 @@ func c07indexForms() []gidx {
 		{name: "vec-undef", text: "<2 x i64> undef", vec: 2, constVal: -1},
 		{name: "vec-poison", text: "<2 x i64> poison", vec: 2, constVal: -1},
 		{name: "nonconst-vector", text: "<2 x i64> %vi", vec: 2, constVal: -1, param: "<2 x i64>"},
+		{name: "vec1-i32-splat", text: "<1 x i32> <i32 1>", vec: 1, constVal: 1},
+		{name: "vec1-zeroinitializer", text: "<1 x i64> zeroinitializer", vec: 1, constVal: -1},
+		{name: "vec1-i64-const", text: "<1 x i64> <i64 1>", vec: 1, constVal: -1},
 		{name: "svec-zeroinitializer", text: "<vscale x 2 x i64> zeroinitializer", vec: -2, constVal: -1},
 		{name: "svec-undef", text: "<vscale x 2 x i64> undef", vec: -2, constVal: -1},
 		{name: "nonconst-svector", text: "<vscale x 2 x i64> %svi", vec: -2, constVal: -1, param: "<vscale x 2 x i64>"},
@@ -138,6 +141,8 @@ func c07build(elems []*gty, maxIdx int) []c07case {
 					ptr := final.text + ast + "*"
 					want := ptr
 					switch vec {
+					case 1:
+						want = "<1 x " + ptr + ">"
 					case 2:
 						want = "<2 x " + ptr + ">"
 					case -2:
@@ -261,7 +266,7 @@ func c07sig(cs c07case) string {
 		baseShape = "vector-base"
 	}
 	// the most "special" index form of the list names the class.
-	rank := []string{"nonconst-svector", "svec-undef", "svec-zeroinitializer", "vec-poison", "vec-undef", "vec-zeroinitializer", "vec-i32-zeroinitializer", "vec-nonsplat", "vec-i32-splat", "vec-splat", "nonconst-vector", "inrange", "i64-poison", "i64-undef", "i32-zeroinitializer", "i1-true", "i8-const", "constexpr", "nonconst-scalar", "i64-const", "i32-zero", "i32-const"}
+	rank := []string{"nonconst-svector", "svec-undef", "svec-zeroinitializer", "vec1-i32-splat", "vec1-i64-const", "vec1-zeroinitializer", "vec-poison", "vec-undef", "vec-zeroinitializer", "vec-i32-zeroinitializer", "vec-nonsplat", "vec-i32-splat", "vec-splat", "nonconst-vector", "inrange", "i64-poison", "i64-undef", "i32-zeroinitializer", "i1-true", "i8-const", "constexpr", "nonconst-scalar", "i64-const", "i32-zero", "i32-const"}
 	for _, r := range rank {
 		for _, n := range cs.Indices {
 			if n == r {
